@@ -176,7 +176,7 @@ def shard_run(arg):
 
 def run(tier, seed, work):
     res = vp.Result("C14", tier, seed, "exploration")
-    n = 1500 if tier == "quick" else 25000
+    n = 10000 if tier == "quick" else 80000
     for d in vp.pmap(shard_run, [(seed, s, work) for s in vp.split(range(n), vp.NCPU)]):
         res.merge(d)
     res.rule = ("evaluations = package_composite_buildpack calls. distinct_nontrivial = distinct (set of URI kinds present, climbs-above-root, "
